@@ -100,38 +100,18 @@ Definition replace_check
     end.
 
 (** ** replace_edge(g, e, g): the replacement is the host object itself.
-    input: host (= replacement, state before the call), counter, edge, (status, result graph, node_map, edge_map).
-    The specification is the same one: [replace_ok host e host ...] with the replacement read
-    BEFORE the call (what the caller passed).
-    verdicts: 0 returned a result that satisfies the specification and equals the aliasing model
-      1 well-formed, well-typed call whose outcome violates the specification (raised, or the
-        oracle [replace_ok] rejects the result) -- and the outcome is exactly the one of
-        [replace_edge_alias_model] (the defect class "replacement is host", C15_replace_alias_refuted)
-      2 wrong type / absent edge not rejected with ValueError leaving the graph unchanged
-      4 as 1 but the outcome ALSO differs from the aliasing model
-      10 outside the guard / specification satisfied, and the outcome differs from the aliasing model *)
+    input: host (= replacement, as the caller passed it, i.e. before the call), counter, edge,
+    (status, result graph, node_map, edge_map).  Since /repo 0be4bef the code reads the replacement
+    before it mutates the host, so the aliased call is judged exactly like any other call: by the
+    verified oracle [replace_ok host e host ...] (C15_replace_ok_exact) against the positive theorem
+    C15_replace_self_spec, and compared with [replace_edge_self_model] = [replace_edge_model host nx e host].
+    verdicts: those of [replace_check] (0 ok; 1 oracle rejects; 2 wrong type / absent edge not rejected
+    cleanly; 3 raised on a well-formed, well-typed call; 10.. differs from the model).
+    The behaviour of the OLD code ([replace_edge_alias_model_old]: RuntimeError half-way, or a result
+    without the copy of e) gets verdict 3 resp. 1 with the call as failing input. *)
 Definition alias_check
   (x : wgraph * nat * wedge * (nat * wgraph * list (wnode * wnode) * list (wedge * wedge))) : nat :=
-  let '(whost, nx, we, (status, wres, wnm, wem)) := x in
-  let host := d_graph whost in let e := d_edge we in let res := d_graph wres in
-  let nm := map (fun p => (d_node (fst p), d_node (snd p))) wnm in
-  let em := map (fun p => (d_edge (fst p), d_edge (snd p))) wem in
-  let typed := list_eqb Nat.eqb (l_type (e_label e)) (gtype host) in
-  let present := has_edge_id host (e_id e) in
-  if negb (typed && present) && negb (Nat.eqb status 1 && graph_eqb res host) then 2
-  else
-    let guard := typed && present && wf_graphb host && belowb nx host && nodupb node_eqb (g_ext host)
-                 && memb edge_eqb (g_edges host) e && functionalb (graph_labels host) in
-    let spec_ok := Nat.eqb status 0 && replace_ok host e host res nm em in
-    let agrees :=
-      match replace_edge_alias_model host nx e with
-      | (gm, _, Ok (nmm, emm)) =>
-        Nat.eqb status 0 && graph_eqb gm res && list_eqb (pair_eqb node_eqb node_eqb) nmm nm
-        && list_eqb (pair_eqb edge_eqb edge_eqb) emm em
-      | (gm, _, Err k) => Nat.eqb status (err_code k) && graph_eqb gm res
-      end in
-    if guard && negb spec_ok then (if agrees then 1 else 4)
-    else if agrees then 0 else 10.
+  let '(whost, nx, we, out) := x in replace_check (whost, nx, we, whost, out).
 
 (** ** start_graph.  input: start label, counter, the implementation's graph (fresh ids numbered
     in order of appearance from the counter).
